@@ -587,3 +587,23 @@ LOOP_INV.update({
     ("ReactionProp", 1): inv_reaction_prop, ("ReactionProp", 2): inv_reaction_prop,
     ("ApplyReaction", 1): inv_apply_reaction,
 })
+
+
+# ---------------------------------------------------------------------------
+# termination: counted loops (for v = a; v < b; v++ with b and v not assigned in the body) have the variant
+# b - v automatically; the others need one
+def var_sample_on_tsample(I, fr):
+    f = _f(fr)
+    return f["n_samples"] - f["sample_pos"]
+
+
+def var_gsd_correction(I, fr):
+    d = I.local_by_name(fr, "delta")
+    dc = I.local_by_name(fr, "delta_count")
+    return d - dc
+
+
+LOOP_VARIANT = {
+    ("SampleOnTSample", 1): var_sample_on_tsample,
+    ("GenerateStochasticDistribution", 9): var_gsd_correction,
+}
